@@ -135,6 +135,9 @@ func (g *hgen) decoration(ver int, allowRetry bool) string {
 			return "s" + strconv.Itoa(8+g.r.Intn(2))
 		case 4:
 			if ver >= 3 {
+				if g.r.Intn(4) == 0 {
+					return "t0"
+				}
 				return "t" + strconv.Itoa(1+g.r.Intn(9999))
 			}
 		case 5:
@@ -454,7 +457,7 @@ func (g *hgen) exhaustive(emit func(hscen, string)) {
 		h.steps = strings.Split(steps, ",")
 		return h
 	}
-	mutations := []string{"b2", "b1", "b2,g02a1", "g01a2", "z1", "z0", "f0", "f4", "c5", "s9", "t77", "p3", "r1", "o1", "y1", "i1,e1l", "g02a1", "g.", "n", "w8", "wd9", "R2", "R1"}
+	mutations := []string{"b2", "b1", "b2,g02a1", "g01a2", "z1", "z0", "f0", "f4", "c5", "s9", "t77", "t0", "p3", "r1", "o1", "y1", "i1,e1l", "g02a1", "g.", "n", "w8", "wd9", "R2", "R1"}
 	orders := []string{"D0,D1", "D1,D0", "S0.1,S1.1,S0.1,S1.1,S0.1,S1.1,S0.1,S1.1,D0,D1"}
 	for _, m := range mutations {
 		for k := 0; k <= 5; k++ {
@@ -484,7 +487,7 @@ func (g *hgen) exhaustive(emit func(hscen, string)) {
 		steps string
 		nodes int
 	}{{"i0", 1}, {"i1,e0l", 1}, {"i0,e2l", 1}, {"i1,e1l", 1}, {"i1,e2l", 2}, {"i1,e1s", 2}, {"i1,e2s", 3}}
-	decos := []string{"z2", "z0", "f0", "f4", "c4", "s8", "t5", "p1", "r1", "o1", "y0", "y2", "w8", "wd9", "I8"}
+	decos := []string{"z2", "z0", "f0", "f4", "c4", "s8", "t5", "t0", "p1", "r1", "o1", "y0", "y2", "w8", "wd9", "I8"}
 	for _, p := range paths {
 		for _, d := range decos {
 			kind := []string{"xs", "x", "q"}[g.r.Intn(3)]
@@ -509,7 +512,7 @@ func histTier(r *vh.Rng, out *vh.Out, tier string) map[string]interface{} {
 	}
 	var jobs []job
 	g.exhaustive(func(h hscen, cls string) { jobs = append(jobs, job{h.String(), cls}) })
-	n := 2500
+	n := 4000
 	if tier == "thorough" {
 		n = 60000
 	}
